@@ -375,7 +375,15 @@ def check_extension(res):
             st = {"error": f"{type(e).__name__}: {e}"}
         want = {"trans_s1": [["go", "s2"]], "events": ["go"], "allowed": ["go"]}
         if st != want:
-            res.violation({"category": "base-state-mutated-by-subclass"},
+            # the known root cause has exactly this shape: Base.s1 gained the subclass's `jump`
+            # transition (and allowed_events trips over the trigger Base does not have);
+            # anything else in this scenario is reported under its own signature
+            known_shape = (st.get("trans_s1") == [["go", "s2"], ["jump", "s3"]]
+                           and st.get("events") == ["go"]
+                           and (st.get("allowed") == ["go", "jump"]
+                                or str(st.get("allowed", "")).startswith("EXC AttributeError")))
+            res.violation({"category": "base-state-mutated-by-subclass" if known_shape
+                           else "subclass-extension-changes-base"},
                           {"extension": when},
                           f"[{when}] after `class Sub(Base)` extended Base.s1 with a new transition, "
                           f"a Base instance in s1 shows {st}, expected {want}")
